@@ -223,6 +223,8 @@ class ARM64:
         if v == "adrp":
             return f"adrp x0, {t}"
         if v == "addlo":
+            if item.get("a"):
+                return f"add x0, x0, :lo12:{t}+{item['a']}"
             return f"add x0, x0, :lo12:{t}"
         if v == "jmp":
             return f"b {t}"
